@@ -232,6 +232,48 @@ pub enum Ev {
     SpawnWorker { ordinal: usize },
     WorkerExit { ordinal: usize },
     Sched(String),
+    /// scheduler events reported by the cfg(mmtk_verif) hooks (mirror of mmtk::verif::events::Ev)
+    PacketAdd { stage: usize, name: &'static str, local: bool },
+    PacketStart { worker: usize, name: &'static str },
+    PacketEnd { worker: usize, name: &'static str },
+    BucketOpenByUpdate { stage: usize, earlier: Vec<(usize, bool, bool, bool)> },
+    BucketOpen { stage: usize },
+    BucketClose { stage: usize, empty: bool },
+    Park { worker: usize, parked: usize, total: usize },
+    LastParked { worker: usize, result: u8 },
+    Unpark { worker: usize, parked: usize },
+    Request { goal: u8, newly: bool },
+    GoalStart { goal: u8 },
+    GoalComplete,
+    GcFinished { worker: usize },
+    Surrender { ordinal: usize, all: bool },
+    /// bucket states (stage, enabled, open, empty) sampled by the binding inside resume_mutators,
+    /// together with the scan/copy counters at that moment
+    AtResume { buckets: Vec<(usize, bool, bool, bool)>, scans: u64, copies: u64 },
+    /// counters sampled at the entry of stop_all_mutators
+    AtStop { scans: u64, copies: u64 },
+}
+
+/// Sink installed into mmtk's cfg(mmtk_verif) event hooks.
+pub fn sched_sink(e: mmtk::verif::events::Ev) {
+    use mmtk::verif::events::Ev as M;
+    let x = match e {
+        M::PacketAdd { stage, name, local } => Ev::PacketAdd { stage, name, local },
+        M::PacketStart { worker, name } => Ev::PacketStart { worker, name },
+        M::PacketEnd { worker, name } => Ev::PacketEnd { worker, name },
+        M::BucketOpenByUpdate { stage, earlier } => Ev::BucketOpenByUpdate { stage, earlier },
+        M::BucketOpen { stage } => Ev::BucketOpen { stage },
+        M::BucketClose { stage, empty } => Ev::BucketClose { stage, empty },
+        M::Park { worker, parked, total } => Ev::Park { worker, parked, total },
+        M::LastParked { worker, result } => Ev::LastParked { worker, result },
+        M::Unpark { worker, parked } => Ev::Unpark { worker, parked },
+        M::Request { goal, newly } => Ev::Request { goal, newly },
+        M::GoalStart { goal } => Ev::GoalStart { goal },
+        M::GoalComplete => Ev::GoalComplete,
+        M::GcFinished { worker } => Ev::GcFinished { worker },
+        M::Surrender { ordinal, all } => Ev::Surrender { ordinal, all },
+    };
+    ev(x);
 }
 
 #[derive(Default)]
@@ -292,6 +334,7 @@ pub struct Globals {
     pub ref_offset: AtomicUsize,
     pub copy_spin: AtomicUsize,
     pub scan_calls: AtomicU64,
+    pub copy_calls: AtomicU64,
     pub rescan_calls: AtomicU64,
     pub live_mutators: AtomicUsize,
     /// set when a pause was an emergency collection (soft references are not retained then)
@@ -347,6 +390,7 @@ pub fn g() -> &'static Globals {
         ref_offset: AtomicUsize::new(0),
         copy_spin: AtomicUsize::new(0),
         scan_calls: AtomicU64::new(0),
+        copy_calls: AtomicU64::new(0),
         rescan_calls: AtomicU64::new(0),
         live_mutators: AtomicUsize::new(0),
         emergency_seen: std::sync::atomic::AtomicBool::new(false),
@@ -439,6 +483,7 @@ impl<const V: usize> ObjectModel<ShadowVM<V>> for ShadowVM<V> {
         let raw = RawObj { start: from_start };
         let bytes = raw.size();
         let (align, offset) = decode_align(raw.align_code());
+        g().copy_calls.fetch_add(1, Ordering::Relaxed);
         let dst = copy_context.alloc_copy(from, bytes, align, offset, semantics);
         assert!(!dst.is_zero(), "alloc_copy returned zero");
         let spin = g().copy_spin.load(Ordering::Relaxed);
@@ -465,6 +510,7 @@ impl<const V: usize> ObjectModel<ShadowVM<V>> for ShadowVM<V> {
             unsafe {
                 std::ptr::copy(from_start as *const u8, to_start as *mut u8, bytes);
             }
+            g().copy_calls.fetch_add(1, Ordering::Relaxed);
             g().copies.lock().unwrap().push((from.to_raw_address().as_usize(), to.to_raw_address().as_usize()));
         }
         let end = unsafe { Address::from_usize(to_start + bytes) };
@@ -648,6 +694,7 @@ impl<const V: usize> Collection<ShadowVM<V>> for ShadowVM<V> {
     {
         let gl = g();
         gl.stop_calls.fetch_add(1, Ordering::SeqCst);
+        ev(Ev::AtStop { scans: gl.scan_calls.load(Ordering::SeqCst), copies: gl.copy_calls.load(Ordering::SeqCst) });
         ev(Ev::Stop { worker: worker_ordinal(tls) });
         {
             let mut st = gl.sync.lock().unwrap();
@@ -673,6 +720,7 @@ impl<const V: usize> Collection<ShadowVM<V>> for ShadowVM<V> {
         if mmtk_ref::<V>().is_emergency_collection() {
             gl.emergency_seen.store(true, Ordering::SeqCst);
         }
+        ev(Ev::AtResume { buckets: mmtk::verif::events::bucket_states(mmtk_ref::<V>()), scans: gl.scan_calls.load(Ordering::SeqCst), copies: gl.copy_calls.load(Ordering::SeqCst) });
         ev(Ev::Resume { worker: worker_ordinal(tls) });
         gl.mutators_running.store(true, Ordering::SeqCst);
         let mut st = gl.sync.lock().unwrap();
